@@ -139,6 +139,13 @@ func DetectAnchoredLiteral(re *syntax.Regexp) *AnchoredLiteralInfo {
 			// After wildcard - must be charclass+ or nothing
 			if isCharClassPlus(sub) && i == suffixIdx-1 {
 				// Charclass bridge right before suffix
+				// A byte table can only express ASCII members: a rune >= 0x80 is
+				// two or more UTF-8 bytes, so a class containing one is not eligible.
+				for _, r := range sub.Sub[0].Rune {
+					if r > 0x7F {
+						return nil
+					}
+				}
 				charClassTable = buildCharClassTable(sub.Sub[0])
 				charClassMin = 1 // Plus requires at least 1
 			} else {
@@ -213,10 +220,15 @@ func extractLiteral(re *syntax.Regexp) []byte {
 	if re.Op != syntax.OpLiteral {
 		return nil
 	}
-	// Convert runes to bytes (assuming ASCII for now)
+	// The matcher compares bytes exactly; a case-insensitive literal ((?i)php,
+	// stored by the parser in folded form) cannot be expressed that way.
+	if re.Flags&syntax.FoldCase != 0 {
+		return nil
+	}
+	// Convert runes to UTF-8 bytes
 	result := make([]byte, 0, len(re.Rune))
 	for _, r := range re.Rune {
-		if r > 255 {
+		if r >= 0x80 {
 			// Non-ASCII literal - still valid but needs UTF-8 encoding
 			// For simplicity, encode as UTF-8
 			buf := make([]byte, 4)
